@@ -25,7 +25,9 @@ Inductive pyexn :=
 | KeyError
 | OverflowError
 | AttributeError
-| ZeroDivisionError.
+| ZeroDivisionError
+| Unmodelled.   (* not a Python class: the model's marker for "this input is outside what is modelled";
+                    theorems exclude it, the correspondence check skips (and counts) such cases *)
 
 Inductive exn := Lib (e : libexn) | Py (e : pyexn).
 
@@ -57,7 +59,7 @@ Definition pyexn_eqb (a b : pyexn) : bool :=
   match a, b with
   | ValueError, ValueError | UnicodeDecodeError, UnicodeDecodeError | IndexError, IndexError
   | TypeError, TypeError | KeyError, KeyError | OverflowError, OverflowError
-  | AttributeError, AttributeError | ZeroDivisionError, ZeroDivisionError => true
+  | AttributeError, AttributeError | ZeroDivisionError, ZeroDivisionError | Unmodelled, Unmodelled => true
   | _, _ => false
   end.
 
@@ -90,6 +92,7 @@ Inductive handler := HLib (e : libexn) | HPy (e : pyexn) | HAisBase | HException
 
 Definition handles (h : handler) (e : exn) : bool :=
   match h, e with
+  | _, Py Unmodelled => false        (* the marker is never caught: it always reaches the boundary *)
   | HException, _ => true
   | HAisBase, _ => is_ais_base e
   | HLib a, Lib b => libexn_eqb a b
